@@ -200,3 +200,38 @@ func vrfH_C07gather() {
 	}
 	vrfCover("both-operations-without-id", len(first) >= 1 && doc.Paths.Paths["/a"].Get.ID == "" && doc.Paths.Paths["/{a}"].Get.ID == "")
 }
+
+var _ = vrfRegister("vrfH_C07analyze", vrfH_C07analyze)
+
+// New: the analysis that every Flatten step starts from (names, pointers and the schema each one designates) does
+// not depend on the order in which the analyzer visits the maps of the document
+func vrfH_C07analyze() {
+	cfg := cfgFromParams()
+	cfg.refs = true
+	doc := symSwagger(cfg)
+	var first *Spec
+	for t := 0; t < vrfTrials(); t++ {
+		if t == 0 {
+			vrfMapOrder("A")
+		} else {
+			vrfMapOrder("B")
+		}
+		an := New(doc)
+		vrfMapOrder("")
+		if t == 0 {
+			first = an
+		} else {
+			vrfAssert("analysis-independent-of-map-order", vrfDeepEqual(an, first))
+		}
+	}
+	vrfCover("a-schema-with-two-members-in-one-map", c07TwoMembers(doc))
+}
+
+func c07TwoMembers(doc *spec.Swagger) bool {
+	for _, d := range doc.Definitions {
+		if len(d.Properties) >= 2 || len(d.PatternProperties) >= 2 || len(d.Definitions) >= 2 {
+			return true
+		}
+	}
+	return false
+}
